@@ -1,6 +1,7 @@
 package main
 
 import (
+	"errors"
 	"time"
 
 	header "github.com/celestiaorg/go-header"
@@ -36,7 +37,35 @@ func c01Case(p pairSpec) {
 		b2i(p.tz), b2i(p.uz), p.tc, p.uc, p.th, p.uh, now+p.tt, now+p.ut, now, driftNs, tvName(p.tv), verrTag(err))
 }
 
+// c01SharedSentinel: a header type whose Verify returns one shared *VerifyError value (hard). A non-adjacent failure is
+// reported soft, as it must be; the NEXT, adjacent, failure of the same type must still be hard.
+func c01SharedSentinel() {
+	now := time.Now().UnixNano()
+	t := &vhdr.Header{Chain: "A", H: 5, T: now - int64(time.Hour), VK: vhdr.VKOk}
+	far := &vhdr.Header{Chain: "A", H: 9, T: now - int64(time.Minute), VK: vhdr.VKShared}
+	adj := &vhdr.Header{Chain: "A", H: 6, T: now - int64(time.Minute), VK: vhdr.VKShared}
+	vhdr.SharedVerifyError.SoftFailure = false
+	cls := func(err error) string {
+		var ve *header.VerifyError
+		switch {
+		case err == nil:
+			return "nil"
+		case errors.As(err, &ve) && ve.SoftFailure:
+			return "soft"
+		case errors.As(err, &ve):
+			return "hard"
+		}
+		return "other"
+	}
+	a0 := cls(header.Verify(t, adj))
+	f := cls(header.Verify(t, far))
+	a1 := cls(header.Verify(t, adj))
+	emit("C01 kind=sharedsentinel => adjacent0=%s nonadjacent=%s adjacent1=%s", a0, f, a1)
+	vhdr.SharedVerifyError.SoftFailure = false
+}
+
 func runC01(tier string, r *rng) {
+	c01SharedSentinel()
 	hour, min := int64(time.Hour), int64(time.Minute)
 	// the complete grid of the property's quantifier (both tiers)
 	for _, tz := range []bool{false, true} {
